@@ -158,11 +158,11 @@ static void ledger_reset(void) {
 static int default_mode;
 static void o_mem(void) {
     if (default_mode)
-        o("mem=a%zu f%zu r%zu live=%zu libc=a0 f0", L_conf.allocs + L_libc.allocs, L_conf.frees + L_libc.frees,
+        o("mem=a%zu f%zu r%zu live=%zu libc=a0 f0 llive=0", L_conf.allocs + L_libc.allocs, L_conf.frees + L_libc.frees,
           op_refused, L_conf.cnt + L_libc.cnt);
     else
-    o("mem=a%zu f%zu r%zu live=%zu libc=a%zu f%zu", L_conf.allocs, L_conf.frees, op_refused,
-      L_conf.cnt, L_libc.allocs, L_libc.frees);
+    o("mem=a%zu f%zu r%zu live=%zu libc=a%zu f%zu llive=%zu", L_conf.allocs, L_conf.frees, op_refused,
+      L_conf.cnt, L_libc.allocs, L_libc.frees, L_libc.cnt);
     if (op_absurd) o(" absurd=%zu", op_absurd);
     if (ledger_errors) o(" err=%s", ledger_msg);
 }
